@@ -65,7 +65,7 @@ func init() {
 			sids := c.field("paramOutgoingResetRequest", "streamIdentifiers")
 			rsn := c.field("paramOutgoingResetRequest", "reconfigRequestSequenceNumber")
 			pop := c.Fn("Association.popPendingDataChunksToSend")
-			st := c.storesIn(g, slt)
+			st := c.storesInRegion(g, slt)
 			c.Check(len(st) == 1, "last-tsn-store", c.P.Pos(g.Pos()), "one senderLastTSN store", fmt.Sprintf("%d senderLastTSN stores", len(st)))
 			for _, a := range st {
 				c.Check(BinV(token.SUB, IsLoadOf(nxt), IsConstInt(1))(a.Val), "last-tsn-value", c.Pos(a.Instr), "senderLastTSN <- myNextTSN-1", "senderLastTSN is not the last assigned TSN")
@@ -74,23 +74,31 @@ func init() {
 					ld := unconv(a.Val).(*ssa.BinOp).X.(ssa.Instruction)
 					c.Check(InstrDominates(pc, ld), "last-tsn-after-pop", c.Pos(a.Instr), "myNextTSN is read after popPendingDataChunksToSend (data ahead of the marker already has its TSNs)", "myNextTSN read before the pending data was assigned TSNs")
 					// streams come from the same pop
-					for _, s := range c.storesIn(g, sids) {
-						ex, ok := s.Val.(*ssa.Extract)
+					for _, s := range c.storesInRegion(g, sids) {
+						sv := unconv(s.Val)
+						if p, isP := sv.(*ssa.Parameter); isP {
+							if a := through(p); a != nil {
+								sv = a
+							}
+						}
+						ex, ok := sv.(*ssa.Extract)
 						c.Check(ok && ex.Tuple == pc.(ssa.Value) && ex.Index == 1, "reset-streams-from-pop", c.Pos(s.Instr), "streamIdentifiers <- the markers popped in this round", "stream list does not come from the popped markers")
 					}
 				}
 			}
-			for _, s := range c.storesIn(g, rsn) {
+			for _, s := range c.storesInRegion(g, rsn) {
 				c.Check(IsCallOf(c.Fn("Association.generateNextRSN"))(s.Val), "request-rsn", c.Pos(s.Instr), "request sequence number <- generateNextRSN()", "request sequence number not freshly generated")
 			}
 			// stored in reconfigs before marshalling
 			recon := c.field("Association", "reconfigs")
 			var upd ssa.Instruction
-			forEachInstr(g, func(in ssa.Instruction) {
-				if mu, ok := in.(*ssa.MapUpdate); ok && IsLoadOf(recon)(mu.Map) {
-					upd = in
-				}
-			})
+			for _, gg := range c.P.Region(g) {
+				forEachInstr(gg, func(in ssa.Instruction) {
+					if mu, ok := in.(*ssa.MapUpdate); ok && IsLoadOf(recon)(mu.Map) {
+						upd = in
+					}
+				})
+			}
 			if upd == nil {
 				c.Fail("request-stored", c.P.Pos(g.Pos()), "request not stored in a.reconfigs")
 			} else {
@@ -426,7 +434,7 @@ func init() {
 			closeFn := c.Fn("Stream.Close")
 			nClose := 0
 			for _, a := range c.P.Writes(stateF) {
-				if enclosingNamed(a.Fn) != closeFn {
+				if !c.P.OwnedBy(a.Fn, map[*ssa.Function]bool{closeFn: true}) {
 					continue
 				}
 				nClose++
